@@ -318,9 +318,22 @@ func c01Judge(c *mc.Ctx, f *c01Fixture, media string, mutant []byte, class, desc
 	if _, done := c01Primed.LoadOrStore(entry.name, true); !done {
 		parseVerify(entry.media, entry.env)
 	}
+	// (for the listed mutants; not for every bit flip) the genuine envelope is verified right before the mutant and what that
+	// verification handed out is looked at again afterwards: a later verification must not change the content of an earlier one
+	var before *signature.EnvelopeContent
+	var payloadCopy, sigCopy []byte
+	if class != "m1" && class != "m2" {
+		if ct, perr, verr, pan := parseVerify(entry.media, entry.env); perr == nil && verr == nil && pan == nil && ct != nil {
+			before, payloadCopy, sigCopy = ct, append([]byte(nil), ct.Payload.Content...), append([]byte(nil), ct.SignerInfo.Signature...)
+		}
+	}
 	c01JudgeOrder(c, f, media, mutant, class, desc, entry, false)
 	// the same object asked for its (untrusted) content first and verified afterwards must not be more permissive
 	c01JudgeOrder(c, f, media, mutant, class, desc+" [Content() called before Verify()]", entry, true)
+	if before != nil && (!bytes.Equal(before.Payload.Content, payloadCopy) || !bytes.Equal(before.SignerInfo.Signature, sigCopy)) {
+		c.Fail(fmt.Sprintf("C01 %s verified content changed after it was handed out (%s)", mediaShort(media), class),
+			"%s: the payload / signature returned by the verification of the genuine envelope read differently after the next envelope had been handled (payload now %q)", desc, truncStr(string(before.Payload.Content), 80))
+	}
 }
 
 // parseContentThenVerify: ParseEnvelope, Content() (result ignored), then Verify() on the same object.
@@ -850,4 +863,11 @@ func init() {
 		},
 		BudgetS: [2]int{170, 1700},
 	})
+}
+
+func truncStr(s string, n int) string {
+	if len(s) > n {
+		return s[:n] + "..."
+	}
+	return s
 }
